@@ -12,9 +12,12 @@ r is not predicted (that would be the grow policy = the model's job); it is infe
 cursor after each op and only required to be monotone and <= c.
 """
 import array
+import os
+import re
 import sys
 import zlib
 
+from . import common as C
 from .runner import Spec
 
 
@@ -107,6 +110,12 @@ class C13(Spec):
             "distinct by script line; non-trivial = some read returned data after a write")
     trusted_base = ["model of Go slices: (contents, len, cap, nil-ness); bytes between len and cap are not modelled (shown unobservable by "
                     "inspection: Write overwrites, Grow truncates them)",
+                    "translator tie (OctetsStream half): tools/srcfacts/minigo_codec.go (go/ast + go/types -> MiniGoBytes terms of "
+                    "OctetsStream.Write/WriteByte/Read/ReadByte/Len/Position/Bytes/Tidy/Reset/Seek, regenerated every run into "
+                    "Got/Generated/AstIox.lean) and the MiniGoBytes interpreter semantics (Go `int` = unbounded integer, int64 = BitVec 64); "
+                    "the theorems C13_translated_source_* are about the interpretation of those terms, and the interpreter on those "
+                    "terms (driver mode `ast`, Got.Model.BytesStreamAst.astCall) is compared with the real code on every `stream` case; "
+                    "iox.Buffer is not translated (hand-written model only)",
                     "64-bit int; Go runtime maxAlloc = 2^48 (linux/amd64): make([]byte, n) panics for n > 2^48 (-> ErrTooLarge), "
                     "an allocation of at most 2^48 bytes is assumed to succeed"]
     assumptions = ["sizes passed to Next/Grow are non-negative (negative ones panic by design)",
@@ -255,6 +264,56 @@ class C13(Spec):
         if len(obs) > len(ops):
             return ("malformed", "more observations than ops")
         return None
+
+    # ------------------------------------------------------------------ translator tie
+    AST_METHODS = ["Write", "WriteByte", "WriteBool", "WriteInt16", "WriteInt32", "WriteInt64", "Read", "ReadByte", "Len",
+                   "Position", "Bytes", "Tidy", "Reset", "Seek"]
+
+    AST_MAX_LINES = 200000
+
+    def extra(self, ctx):
+        """second correspondence: the MiniGoBytes interpreter on the terms regenerated from /repo/iox/octets_stream.go (driver
+        mode `ast`) must print what the real code printed on every `stream` line (validates translator + interpreter
+        semantics; the Lean theorems C13_translated_source_* tie those terms to the model and to the abstract FIFO)."""
+        ex = ctx.get("ex")
+        cov = ctx["coverage"]
+        notes = {}
+        gen = os.path.join(C.LEAN, "Got", "Generated", "AstIox.lean")
+        if os.path.exists(gen):
+            for m in re.finditer(r'^def OctetsStream_(\w+)Note : String := "(.*)"$', open(gen).read(), re.M):
+                notes[m.group(1)] = m.group(2)
+        bad_notes = {m: notes.get(m, "missing") for m in self.AST_METHODS if notes.get(m) != "ok"}
+        cov["translation_notes_ok"] = len(self.AST_METHODS) - len(bad_notes)
+        if bad_notes:
+            ctx["broken"].append({"layer": "L2", "what": "translator: OctetsStream methods no longer inside the MiniGoBytes fragment: %s" % bad_notes})
+        if not ex or "build_error" in ex or not ex.get("script") or not os.path.exists(C.driver_path(self.driver)):
+            return
+        idx = [i for i, s in enumerate(ex["script"]) if s.startswith("stream |") and i < len(ex["impl"])]
+        if not idx:
+            return
+        cov["ast_interpreter_stream_lines_total"] = len(idx)
+        if len(idx) > self.AST_MAX_LINES:
+            # thorough tier: an evenly strided subset (every class of the generators is spread over the whole script)
+            step = -(-len(idx) // self.AST_MAX_LINES)
+            idx = idx[::step]
+        d = os.path.join(C.OUT, "run", "C13-ast-%d" % os.getpid())
+        C.fresh_dir(d)
+        try:
+            sp, op = os.path.join(d, "script.txt"), os.path.join(d, "ast.txt")
+            open(sp, "w").write("".join(ex["script"][i] + "\n" for i in idx))
+            rc, err = C.run_driver(self.driver, ["ast"], sp, op)
+            out = open(op, errors="replace").read().split("\n")[:-1]
+            bad = [(ex["script"][i], ex["impl"][i], b) for i, b in zip(idx, out) if ex["impl"][i] != b]
+            cov["ast_interpreter_lines"] = len(out)
+            cov["ast_interpreter_mismatches"] = len(bad)
+            if rc != 0 or len(out) != len(idx):
+                ctx["broken"].append({"layer": "L2", "what": "driver (ast mode) failed rc=%s, %d of %d lines: %s" % (rc, len(out), len(idx), (err or "")[-300:])})
+            elif bad:
+                ctx["broken"].append({"layer": "L2", "what": "translated source (MiniGoBytes interpreter) and implementation differ on %d of %d stream lines" % (len(bad), len(out)),
+                                      "first": [{"script": s[:300], "impl": a[:200], "ast": b[:200]} for s, a, b in bad[:5]]})
+        finally:
+            import shutil
+            shutil.rmtree(d, ignore_errors=True)
 
     def nontrivial(self, script, impl):
         if " | " not in script:
